@@ -410,6 +410,7 @@ Section History.
         | None => [-2]
         | Some t => if cell_exists t c then obs_result (spec_answer (conn_of t) 1 false c) else [-2]
         end
+    | Cert tris => obs_cert sp tris
     end.
   Definition next_tbl (t : option table) (o : op) : option table :=
     match o, t with Build tbl, None => Some tbl | _, _ => t end.
@@ -431,7 +432,7 @@ Section History.
     st_ok (fst (step pI pG cprop sp st o)).
   Proof.
     intros Hok. destruct st as [t ch]. unfold st_ok in *. cbn [st_tbl st_cache] in *.
-    destruct o as [tbl|form c r ic|c]; cbn [step spec_obs next_tbl st_tbl st_cache].
+    destruct o as [tbl|form c r ic|c|tris]; cbn [step spec_obs next_tbl st_tbl st_cache].
     - destruct t as [t|]; cbn [fst snd st_tbl st_cache]; repeat split; auto.
       subst ch. apply Inv_nil.
     - destruct t as [t|]; [|cbn [fst snd st_tbl st_cache]; auto].
@@ -442,6 +443,7 @@ Section History.
       destruct (cell_exists t c); [|cbn [fst snd st_tbl st_cache]; auto].
       destruct (neighborhood_prop_ok (conn_of t) pI pG cprop HI HG c ch Hok) as [H1 H2].
       cbn [fst snd st_tbl st_cache]. rewrite H1. auto.
+    - cbn [fst snd st_tbl st_cache]. destruct t; auto.
   Qed.
 
   Lemma run_ops_ok ops : forall st, st_ok st ->
@@ -1715,4 +1717,62 @@ Proof.
   intros Hok moore torus dims r c d Hc. split.
   - intros [k [Hk Hh]]. destruct (ghops_dist Hok moore torus dims k c d Hh Hc). split; [assumption|lia].
   - intros [Hd Hdist]. apply (dist_ghops Hok); assumption.
+Qed.
+
+(* ================================================================== 6. Delaunay certificate (translation validation) *)
+Lemma idxs_In {A} (l : list A) i : In i (idxs l) <-> 0 <= i < Z.of_nat (length l).
+Proof. unfold idxs. rewrite zrange_In. lia. Qed.
+
+Lemma in_range_In pts i : in_range pts i = true <-> In i (idxs pts).
+Proof. unfold in_range. rewrite idxs_In, andb_true_iff, Z.leb_le, Z.ltb_lt. tauto. Qed.
+
+Lemma tri_adj_spec tris i j :
+  tri_adj tris i j = true <-> exists t z, In t tris /\ In (i, j, z) (perms3 t).
+Proof.
+  unfold tri_adj. rewrite existsb_exists. split.
+  - intros [t [Ht Hp]]. apply existsb_exists in Hp. destruct Hp as [[[x y] z] [Hin He]].
+    apply andb_true_iff in He. destruct He as [E1 E2]. apply Z.eqb_eq in E1, E2. subst. eauto.
+  - intros [t [z [Ht Hp]]]. exists t. split; [exact Ht|]. apply existsb_exists.
+    exists (i, j, z). split; [exact Hp|]. rewrite !Z.eqb_refl. reflexivity.
+Qed.
+
+(* a certified triangulation has exactly the edges the Delaunay specification names *)
+Lemma cert_sound pts tris : delaunay_cert pts tris = true ->
+  forall i j, In i (idxs pts) -> In j (idxs pts) ->
+  (tri_adj tris i j = true <->
+   i <> j /\ exists k, In k (idxs pts) /\ k <> i /\ k <> j /\
+                       empty_circle pts (pnt pts i) (pnt pts j) (pnt pts k) = true).
+Proof.
+  unfold delaunay_cert. rewrite andb_true_iff. intros [Hs Hc] i j Hi Hj. split.
+  - intros H. apply tri_adj_spec in H. destruct H as [t [z [Ht Hp]]].
+    rewrite forallb_forall in Hs. specialize (Hs t Ht). rewrite forallb_forall in Hs.
+    specialize (Hs _ Hp). unfold tri_ok in Hs.
+    rewrite !andb_true_iff, !negb_true_iff, !Z.eqb_neq in Hs.
+    destruct Hs as [[[[[[R1 R2] R3] D1] D2] D3] He].
+    split; [exact D1|]. exists z. split; [apply in_range_In; exact R3|]. auto.
+  - intros [Hne [k [Hk [Hki [Hkj He]]]]].
+    rewrite forallb_forall in Hc. specialize (Hc i Hi). rewrite forallb_forall in Hc.
+    specialize (Hc j Hj). rewrite forallb_forall in Hc. specialize (Hc k Hk).
+    assert (negb (i =? j) && negb (k =? i) && negb (k =? j) &&
+            empty_circle pts (pnt pts i) (pnt pts j) (pnt pts k) = true) as Hpre.
+    { rewrite !andb_true_iff, !negb_true_iff, !Z.eqb_neq. auto. }
+    rewrite Hpre in Hc. exact Hc.
+Qed.
+
+Lemma cert_delaunay pts tris : delaunay_cert pts tris = true -> Z.of_nat (length pts) <> 2 ->
+  forall i j, In i (idxs pts) -> In j (idxs pts) -> tri_adj tris i j = delaunay_adj pts i j.
+Proof.
+  intros Hc Hn i j Hi Hj. pose proof (cert_sound pts tris Hc i j Hi Hj) as Hs.
+  assert (delaunay_adj pts i j = true <->
+          i <> j /\ exists k, In k (idxs pts) /\ k <> i /\ k <> j /\
+                       empty_circle pts (pnt pts i) (pnt pts j) (pnt pts k) = true) as Hd.
+  { unfold delaunay_adj, pnt. rewrite andb_true_iff, negb_true_iff, Z.eqb_neq, orb_true_iff, Z.eqb_eq, existsb_exists.
+    split.
+    - intros [H1 [H2|[k [Hk Hk2]]]]; [contradiction|]. split; [exact H1|]. exists k.
+      rewrite !andb_true_iff, !negb_true_iff, !Z.eqb_neq in Hk2. tauto.
+    - intros [H1 [k [Hk [H2 [H3 H4]]]]]. split; [exact H1|]. right. exists k. split; [exact Hk|].
+      rewrite !andb_true_iff, !negb_true_iff, !Z.eqb_neq. tauto. }
+  destruct (tri_adj tris i j), (delaunay_adj pts i j); try reflexivity.
+  - symmetry. apply Hd. apply Hs. reflexivity.
+  - apply Hs. apply Hd. reflexivity.
 Qed.
